@@ -72,6 +72,9 @@ func runC03(tier, replay string) {
 				continue
 			}
 			runFaultHistory(ctx0, r, se, stack, hi, steps, base.Fork(fmt.Sprintf("c03/%s/%d", stack, hi)))
+			if hi == 0 && only < 0 {
+				scriptedSharingHistory(ctx0, r, se, stack, base.Fork("c03-script/"+stack))
+			}
 			// C09 rider: after the fault-ridden history, everything unreferenced must be reclaimable
 			probs, _ := reclaimCheck(ctx0, se)
 			r.Count("reclaim_checks_after_fault_histories", 1)
@@ -95,6 +98,11 @@ func runC03(tier, replay string) {
 }
 
 func runFaultHistory(ctx0 context.Context, r *vkit.Run, se *stackEnv, stack string, hi, steps int, rng *vkit.Rand) {
+	runFaultHistoryWith(ctx0, r, se, stack, hi, steps, rng, nil)
+}
+
+// runFaultHistoryWith: next == nil uses the PRNG generator, otherwise the scripted operations (nil ends the history).
+func runFaultHistoryWith(ctx0 context.Context, r *vkit.Run, se *stackEnv, stack string, hi, steps int, rng *vkit.Rand, next func(step int, m *vmodel.Model) *vmodel.Op) {
 	m := vmodel.NewModel()
 	g := vmodel.NewGen(rng, faultProfile(hi))
 	var log []vmodel.StepLog
@@ -106,7 +114,14 @@ func runFaultHistory(ctx0 context.Context, r *vkit.Run, se *stackEnv, stack stri
 	}
 	strict := vmodel.DiffOptions{LastModified: true}
 	for step := 0; step < steps; step++ {
-		op := g.Next(m)
+		var op *vmodel.Op
+		if next != nil {
+			if op = next(step, m); op == nil {
+				break
+			}
+		} else {
+			op = g.Next(m)
+		}
 		exp := m.Predict(op)
 		if isReadOnly(op.Kind) {
 			res := vmodel.Exec(ctx0, se.s, op)
@@ -198,4 +213,57 @@ func runFaultHistory(ctx0 context.Context, r *vkit.Run, se *stackEnv, stack stri
 	if hi == 0 {
 		r.Sample(map[string]any{"stack": stack, "history": tail()})
 	}
+}
+
+// scriptedSharingHistory: a fixed sequence of writes whose parts are shared by
+// content dedup and copies - overwrite of a unique part by already stored
+// content, overwrite of a shared part, copy over an existing key, deletes,
+// append, multipart with a deduplicated part, abort - every step executed with
+// the full fault enumeration. These transactions carry the longest hook chains
+// (publish fresh part, drop it again after the dedup hit, drop the replaced part).
+func scriptedSharingHistory(ctx context.Context, r *vkit.Run, se *stackEnv, stack string, rng *vkit.Rand) {
+	b := "fb-script"
+	x, y, z := rng.Bytes(1500), rng.Bytes(900), rng.Bytes(2100)
+	var uploadID string
+	script := []func(m *vmodel.Model) *vmodel.Op{
+		func(*vmodel.Model) *vmodel.Op { return &vmodel.Op{Kind: vmodel.OpCreateBucket, Bucket: b} },
+		func(*vmodel.Model) *vmodel.Op { return &vmodel.Op{Kind: vmodel.OpPut, Bucket: b, Key: "k1", Body: x} },
+		func(*vmodel.Model) *vmodel.Op { return &vmodel.Op{Kind: vmodel.OpPut, Bucket: b, Key: "k2", Body: y} },
+		func(*vmodel.Model) *vmodel.Op { return &vmodel.Op{Kind: vmodel.OpPut, Bucket: b, Key: "k3", Body: x} },
+		func(*vmodel.Model) *vmodel.Op { return &vmodel.Op{Kind: vmodel.OpPut, Bucket: b, Key: "k2", Body: x} }, // unique part replaced by a dedup hit
+		func(*vmodel.Model) *vmodel.Op { return &vmodel.Op{Kind: vmodel.OpPut, Bucket: b, Key: "k1", Body: z} }, // shared part replaced by unique content
+		func(*vmodel.Model) *vmodel.Op {
+			return &vmodel.Op{Kind: vmodel.OpCopy, Bucket: b, Key: "k1", SrcBucket: b, SrcKey: "k3"}
+		},
+		func(*vmodel.Model) *vmodel.Op {
+			return &vmodel.Op{Kind: vmodel.OpAppend, Bucket: b, Key: "k2", Body: y}
+		},
+		func(*vmodel.Model) *vmodel.Op { return &vmodel.Op{Kind: vmodel.OpMpuCreate, Bucket: b, Key: "k3"} },
+		func(m *vmodel.Model) *vmodel.Op {
+			for id := range m.Buckets[b].Uploads {
+				uploadID = id
+			}
+			return &vmodel.Op{Kind: vmodel.OpMpuPart, Bucket: b, Key: "k3", UploadID: uploadID, PartNumber: 1, Body: z}
+		},
+		func(*vmodel.Model) *vmodel.Op {
+			return &vmodel.Op{Kind: vmodel.OpMpuPart, Bucket: b, Key: "k3", UploadID: uploadID, PartNumber: 1, Body: x} // replace the part by deduplicated content
+		},
+		func(*vmodel.Model) *vmodel.Op {
+			return &vmodel.Op{Kind: vmodel.OpMpuPart, Bucket: b, Key: "k3", UploadID: uploadID, PartNumber: 2, Body: y}
+		},
+		func(*vmodel.Model) *vmodel.Op {
+			return &vmodel.Op{Kind: vmodel.OpMpuComplete, Bucket: b, Key: "k3", UploadID: uploadID}
+		},
+		func(*vmodel.Model) *vmodel.Op { return &vmodel.Op{Kind: vmodel.OpDelete, Bucket: b, Key: "k1"} },
+		func(*vmodel.Model) *vmodel.Op {
+			return &vmodel.Op{Kind: vmodel.OpMultiDelete, Bucket: b, Entries: []vmodel.DelEntry{{Key: "k2"}, {Key: "k3"}}}
+		},
+	}
+	r.Count("scripted_sharing_histories", 1)
+	runFaultHistoryWith(ctx, r, se, stack, 1000, len(script), rng, func(step int, m *vmodel.Model) *vmodel.Op {
+		if step >= len(script) {
+			return nil
+		}
+		return script[step](m)
+	})
 }
